@@ -24,8 +24,43 @@ interior physical objects, affinely independent, dim+1 of them; for the
 equality-constrained parametrisation that hull is the whole variable space).
 Off that hull (unconstrained parametrisation, QST/POVMT/QPT) the circuit is
 compared with the per-schedule normalised model.
+
+History / combination steps (run_history; every case, same oracles, nothing new
+is demanded - the statement holds "for every candidate object and every
+schedule" of every tomography object, whatever was asked of it before):
+
+  second-call      after all the ordinary work every contract is asked again of
+                   the SAME tomography (other order, first and last objects);
+  after-consumer   the library's own consumers of the model run on it
+                   (LinearEstimator, Fisher matrix, covariance, analytical MSE,
+                   generate_empi_dists), then the model is asked again;
+  twin / re-used   two more tomographies of the same class, flag and sizes are
+  testers          alive and asked alternately with the first one, with the SAME
+                   candidate objects: a twin whose testers are the first one's
+                   rotated by a random unitary (half of them obtained through
+                   copy(), custom schedules handed over as returned by the first
+                   tomography's experiment, non-default constructor options),
+                   and one built from the very same tester objects / lists with
+                   another schedule list;
+  via-pickle       the tomography after a pickle round trip together with its
+                   candidates (what joblib workers and to_pickle() see);
+  candidate-via-*  candidates obtained through copy(), generate_from_var() and
+                   convert_var_to_qoperation() instead of a constructor;
+  experiment:*     ONE copy of the experiment is re-used for several objects
+                   through its public list setters and a schedules setter;
+  transient        candidates created, asked and dropped one after the other
+                   (an identity-keyed cache sees the same id() again).
+
+Constructor options outside the flag (is_estimation_object, eps_proj_physical,
+eps_truncate_imaginary_part, seed_data) take non-default values in a third of
+the cases (is_physicality_required=True is rejected by the library for its
+all-zero template and is not used).  A violation that appears only in a history
+step carries the step's name as key suffix (PhaseKeys).
 """
+import contextlib
+import copy
 import math
+import pickle
 
 import numpy as np
 
@@ -39,7 +74,10 @@ RULE = ("one case = one tomography configuration: class in {Qst,Povmt,Qpt,Qmpt} 
         "permutation, subset, repetition, subset+repetition+permutation) x unknown outcome count 2..4; distinct by (class, shape, "
         "basis, flag, schedule list, m, rounded tester arrays); non-trivial when the testers are random (not the symmetric "
         "Pauli example with schedule 'all') - every such case is compared on the full affine basis of variable space (reference) "
-        "and on physical objects (circuit)")
+        "and on physical objects (circuit); each case then runs the history steps on the same objects (second call, after the "
+        "library's consumers of the model, a same-size twin and a tomography on re-used testers asked alternately, pickle "
+        "round trip, candidates via copy()/generate_from_var, one experiment copy re-used through its setters) and a third of the "
+        "cases use non-default constructor options")
 _SQT = "quara/protocol/qtomography/standard/standard_qtomography.py:StandardQTomography."
 ANCHORS = [
     _SQT + "calc_matA", _SQT + "calc_vecB", _SQT + "calc_prob_dists", _SQT + "calc_prob_dist",
@@ -63,6 +101,9 @@ ASSUMPTIONS = [
     "objects are produced by convert_var_to_qoperation and their variables are read back before use",
     "the circuit side is only asked about objects whose reference probabilities are all >= 1e-6 or <= 1e-12 in size, because "
     "compose_qoperations truncates below 1e-8 and renormalises (documented behaviour outside this property)",
+    "history steps use public calls only: Experiment list / schedules setters, copy(), generate_from_var(), pickle round trip "
+    "(the library pickles tomographies itself: joblib workers of the simulation flow, SimulationResult.to_pickle); the "
+    "results of the consumer calls (estimates, Fisher matrices, empirical distributions) are not judged here",
 ]
 
 TOL_PASS, TOL_FAIL = 1e-11, 1e-8
@@ -314,13 +355,55 @@ class Monitor:
         return np.asarray(obj.to_var() if meta.flag else obj.to_stacked_vector(), dtype=float)
 
     def model(self, meta, obj):
-        return meta.A_q @ self.var_of(meta, obj) + meta.b_q
+        """A.var(obj)+b with quara's A, b as read at registration; None when their shapes do not fit (reported by the
+        calc_matA / calc_vecB contracts)"""
+        v = self.var_of(meta, obj)
+        A, b = meta.A_q, meta.b_q
+        if A.ndim != 2 or v.ndim != 1 or A.shape[1] != v.shape[0] or b.shape != (A.shape[0],) or A.shape[0] != meta.ref.total:
+            return None
+        return A @ v + b
 
     def cnt(self, meta):
         return "mixed-outcome-counts" if meta.ref.mixed else "uniform-outcome-counts"
 
     def tag(self, meta):
         return f"{meta.cls}:{'eq-constrained' if meta.flag else 'unconstrained'}"
+
+
+class PhaseKeys:
+    """Key suffixes for history steps.  While a step is active (`with ph.step(name)`) every violation recorded through
+    ctx.num / ctx.truth / ctx.violation - by a hook or by the driver - whose key was NOT already produced by the ordinary
+    (fresh-object) part of the same case gets the suffix ':<name>': such a key can only come from the history.  Within a
+    case a key keeps the suffix of the step that showed it first (a fault left behind by one step is not re-named by
+    every later step)."""
+
+    def __init__(self, ctx):
+        self.ctx, self.cur, self.fresh, self.first = ctx, None, set(), {}
+        self._orig = ctx.violation
+        ctx.violation = self._violation  # instance attribute: ctx.num / ctx.truth call self.violation
+
+    def _violation(self, key, info=None):
+        if self.cur is None:
+            self.fresh.add(key)
+        elif key not in self.fresh:
+            if isinstance(info, dict):
+                info = dict(info, history_step=self.cur)
+            key = f"{key}:{self.first.setdefault(key, self.cur)}"
+        self._orig(key, info)
+
+    def new_case(self):
+        self.cur, self.fresh, self.first = None, set(), {}
+
+    @contextlib.contextmanager
+    def step(self, name):
+        prev, self.cur = self.cur, name
+        try:
+            yield
+        finally:
+            self.cur = prev
+
+    def restore(self):
+        self.ctx.__dict__.pop("violation", None)
 
 
 def row_diagnosis(A, A_ref):
@@ -444,6 +527,9 @@ def install(ctx):
                 ctx.skip("circuit:vs-born")
                 continue
             check_dist("circuit:vs-born", result[j], want, f"generate_prob_dists_sequence:{meta.cls}:circuit-differs-from-born", info)
+            if model is None:
+                ctx.skip("circuit:vs-model")
+                continue
             mj = R.slice(model, j)
             check_dist("circuit:vs-model", result[j], mj, f"forward-model:{mon.tag(meta)}:model-differs-from-circuit", info)
 
@@ -784,6 +870,320 @@ def self_test(ctx, meta, objs_raw, rng):
     ctx.count("ref_self_test")
 
 
+def judge_ic(ctx, mon, meta, cfg=None):
+    """informational completeness from the testers' dense operators vs column rank of quara's A (as read at registration)"""
+    R, nv, desc = meta.ref, meta.nvar, meta.desc
+    rows, full = R.ic_rows()
+    r_ic, dec_ic = rank_zones(rows)
+    if rows.shape[0] < full:
+        ic, dec_ic = False, True
+    else:
+        ic = r_ic == full
+    r_A, dec_A = meta.rank_A_q
+    if meta.A_q.shape[0] < nv:
+        fullcol, dec_A = False, True
+    else:
+        fullcol = r_A == nv
+    if dec_ic and dec_A and meta.A_q.ndim == 2 and meta.A_q.shape[1] == nv:
+        ctx.truth("matA:full-column-rank-iff-IC", ic == fullcol,
+                  key=f"matA:{mon.tag(meta)}:" + ("IC-but-rank-deficient" if ic else "not-IC-but-full-column-rank"),
+                  info={"config": desc, "rank_A": r_A, "num_variables": nv, "rank_functionals": r_ic, "full": full})
+        if cfg is not None:
+            ctx.count("cfg:IC" if ic else "cfg:non-IC")
+            intended = cfg["povm_design"] in ("ic", "pauli") and cfg["state_design"] in ("ic", "pauli") and cfg["sched_mode"] in ("all", "explicit", "perm", "rep")
+            if intended and not ic:
+                ctx.note(f"generator: design meant to be IC is not ({desc})")
+    else:
+        ctx.skip("matA:full-column-rank-iff-IC")
+
+
+def judge_experiment(ctx, hs, mon, meta, exp, o, js, index_of=None):
+    """Experiment.calc_prob_dist(j) of an experiment (derived from the tomography's) that holds the candidate o, against
+    the model and the Born rule of schedule index_of(j) of the tomography (identity unless the experiment's schedule
+    list was replaced)."""
+    R, desc = meta.ref, meta.desc
+    with hs.paused():
+        model = mon.model(meta, o)
+        born = R.born_all(raw_of(o))
+    for j in js:
+        jr = j if index_of is None else index_of(j)
+        ok, ps = ctx.attempt(exp.calc_prob_dist, j)
+        if not ok:
+            ctx.violation(f"experiment.calc_prob_dist:{meta.cls}:" + ctx.exc_key(ps), {"config": desc})
+            break
+        want = dist_expected(R.slice(born, jr))
+        if want is None:
+            ctx.skip("experiment.calc_prob_dist:vs-model")
+            continue
+        got = np.asarray(ps, dtype=float).reshape(-1)
+        mj = R.slice(model, jr) if model is not None else want
+        err = max(maxabs(got, mj), maxabs(got, want))
+        ctx.num("experiment.calc_prob_dist:vs-model", err, TOL_PASS, TOL_FAIL,
+                key=f"forward-model:{mon.tag(meta)}:model-differs-from-circuit" if maxabs(got, mj) >= maxabs(got, want)
+                else f"experiment.calc_prob_dist:{meta.cls}:circuit-differs-from-born",
+                info={"schedule": j, "config": desc})
+
+
+def draw_opts(rng, p):
+    """non-default values of the constructor options the forward model must not depend on"""
+    o = {}
+    if rng.random() < p:
+        o["is_estimation_object"] = True
+    if rng.random() < p:
+        o["eps_proj_physical"] = float(10.0 ** int(rng.integers(-12, -6)))
+    if rng.random() < p:
+        o["eps_truncate_imaginary_part"] = float(10.0 ** int(rng.integers(-12, -6)))
+    if rng.random() < p:
+        o["seed_data"] = int(rng.integers(0, 2 ** 31 - 1))
+    return o
+
+
+def sched_arg(kind, lst):
+    mid = {"qpt": "gate", "qmpt": "mprocess"}.get(kind)
+    if mid:
+        return [[("state", int(i)), (mid, 0), ("povm", int(j))] for (i, j) in lst]
+    return [[("state", int(i)), ("povm", int(j))] for (i, j) in lst]
+
+
+def run_history(ctx, hs, mon, ph, Q, meta, case, hrng):
+    """History / combination steps of one case (see the module docstring).  Everything is asked through the hooked
+    public methods, so the ordinary oracles judge every answer against the reference model of the tomography asked."""
+    from quara.protocol.qtomography.standard.linear_estimator import LinearEstimator
+
+    kind, flag, bc, c_sys, m = case.kind, case.flag, case.bc, case.c_sys, case.m
+    tomo, R, objs, cand = meta.tomo, meta.ref, case.objs, case.cand
+    if not objs or not cand:
+        return
+    meta.step = "interleaved-with-sibling"
+
+    # cost control: is_fullrank_matA is an SVD inside the library, a circuit pass is one composition chain per schedule
+    big = meta.A_q.size > 2.5e5
+
+    def some_js(mt, k=3):
+        n = len(mt.ref.sched)
+        return sorted(set([0, n - 1, int(hrng.integers(0, n))][3 - k:]))
+
+    def stepname(mt, step):
+        # a sibling / clone is always named by what it is; the first tomography by the step that asks it
+        return mt.step if mt is not meta else (step or mt.step)
+
+    def ask_model(mt, full=False, step=None, rank=True):
+        t = mt.tomo
+        with ph.step(stepname(mt, step)):
+            ctx.attempt(lambda: t.num_variables)
+            for j in (range(len(mt.ref.sched) - 1, -1, -1) if full else some_js(mt)):
+                ctx.attempt(t.num_outcomes, j)
+            ctx.attempt(t.calc_vecB)
+            ctx.attempt(t.calc_matA)
+            if rank:
+                ctx.attempt(t.is_fullrank_matA)
+
+    def ask_dists(mt, o, seq=False, step=None, k=1):
+        t = mt.tomo
+        with ph.step(stepname(mt, step)):
+            ctx.attempt(t.calc_prob_dists, o)
+            for j in some_js(mt, k):
+                ctx.attempt(t.calc_prob_dist, o, j)
+            if seq:
+                ctx.attempt(t.generate_prob_dists_sequence, o)
+
+    # ---- (a) second call: the same tomography, the same objects, other order
+    ask_model(meta, full=True, step="second-call", rank=not big)
+    for o in (cand[-1], cand[0], cand[len(cand) // 2]):
+        ask_dists(meta, o, step="second-call", k=3)
+    ask_dists(meta, objs[0], seq=True, step="second-call")  # the very first object the circuit was asked about
+    ctx.count("hist:second-call")
+
+    # ---- (a') the library's consumers of the model run, then the model is asked again (results of the consumers: not judged)
+    o = objs[0]
+    nS = len(R.sched)
+    small = nS <= 40
+    fullcol = meta.A_q.ndim == 2 and meta.A_q.shape[0] >= meta.nvar and meta.rank_A_q[1] and meta.rank_A_q[0] == meta.nvar
+
+    def consume(name, fn, *a):
+        ok, val = ctx.attempt(fn, *a)
+        ctx.count(f"hist:consumer:{name}:" + ("returned" if ok else f"raised:{'mixed' if R.mixed else 'uniform'}-outcome-counts"))
+        return ok, val
+
+    with ph.step("after-consumer"), np.errstate(all="ignore"):
+        ok, pd = ctx.attempt(tomo.calc_prob_dists, o)
+        if ok and fullcol:
+            empi = [(1000, np.array(q, dtype=float)) for q in pd]
+            consume("LinearEstimator", LinearEstimator().calc_estimate, tomo, empi, True)
+        ok, var = ctx.attempt(mon.var_of, meta, o)
+        if ok:
+            for j in some_js(meta):
+                consume("calc_fisher_matrix", tomo.calc_fisher_matrix, j, var)
+        consume("calc_covariance_mat_single", tomo.calc_covariance_mat_single, o, nS - 1, 100)
+        if small:
+            consume("calc_mse_empi_dists_analytical", tomo.calc_mse_empi_dists_analytical, o, [100] * nS)
+            if fullcol:
+                consume("calc_mse_linear_analytical", tomo.calc_mse_linear_analytical, o, [100] * nS, "var")
+        if not big:
+            consume("generate_empi_dists", tomo.generate_empi_dists, o, 20, int(hrng.integers(0, 2 ** 31 - 1)))
+    ask_model(meta, step="after-consumer", rank=not big)  # (LinearEstimator has just asked is_fullrank_matA itself)
+    ask_dists(meta, o, seq=True, step="after-consumer")
+    ask_dists(meta, cand[-1], step="after-consumer")
+    ctx.count("hist:after-consumer")
+
+    # ---- (c) sibling tomographies of the same class / flag / sizes, alive together with the first one
+    def sibling(step, states, povms, state_vecs, povm_vecs, arg, sched, opts, rank=True):
+        kw = dict(on_para_eq_constraint=flag, schedules=arg, **opts)
+        if kind == "qst":
+            ctor = lambda: case.cls(povms, **kw)  # noqa: E731
+        elif kind == "povmt":
+            ctor = lambda: case.cls(states, m, **kw)  # noqa: E731
+        elif kind == "qpt":
+            ctor = lambda: case.cls(states, povms, **kw)  # noqa: E731
+        else:
+            ctor = lambda: case.cls(states, povms, m, **kw)  # noqa: E731
+        with ph.step(step):
+            ok, t = ctx.attempt(ctor)
+            if not ok:
+                ctx.violation(f"ctor:{meta.cls}:" + ctx.exc_key(t), {"config": meta.desc, "ctor_options": sorted(opts)})
+                return None
+        mt = Meta()
+        mt.tomo, mt.kind, mt.cls, mt.flag, mt.step = t, kind, meta.cls, flag, step
+        mt.desc = dict(meta.desc, history_step=step, n_schedules=len(sched), ctor_options=sorted(opts))
+        mt.ref = RefModel(kind, bc, state_vecs, povm_vecs, sched, m)
+        mt.nvar = meta.nvar
+        mt.A_ref = mt.b_ref = mt.rank_A_q = None
+        with hs.paused():
+            mt.A_q = np.asarray(t.calc_matA(), dtype=float)
+            mt.b_q = np.asarray(t.calc_vecB(), dtype=float).reshape(-1)
+        if case.all_raws is not None:
+            base = mt.ref.born_all(case.all_raws[0]).real
+            mt.A_ref = np.array([mt.ref.born_all(r).real - base for r in case.all_raws[1:]]).T.reshape(mt.ref.total, mt.nvar)
+            mt.b_ref = base
+        mt.ask_rank = rank
+        mon.reg[id(t)] = mt
+        if rank:
+            mt.rank_A_q = rank_zones(mt.A_q) if mt.A_q.ndim == 2 else (0, False)
+            with ph.step(step):
+                judge_ic(ctx, mon, mt)
+        return mt
+
+    sibs = []
+    # twin: the first tomography's testers rotated by one random unitary (same counts, same ranks, same IC-ness, other arrays)
+    U = ref.rand_unitary(bc.d, hrng)
+    rot = lambda X: ref.herm_part(U @ X @ ref.dag(U))  # noqa: E731
+    t_state_vecs = [clean(bc.coeffs(rot(X)).real) for X in R.state_ops]
+    t_povm_vecs = [[clean(bc.coeffs(rot(M)).real) for M in ms] for ms in R.povm_ops]
+
+    def mk_twin_testers(req):
+        st = [Q.State(c_sys, v.copy(), is_physicality_required=req) for v in t_state_vecs]
+        pv = [Q.Povm(c_sys, [v.copy() for v in vs], is_physicality_required=req) for vs in t_povm_vecs]
+        return st, pv
+
+    ok, val = ctx.attempt(mk_twin_testers, True)
+    if not ok:
+        ok, val = ctx.attempt(mk_twin_testers, False)
+    if ok:
+        t_states, t_povms = val
+        # every second tester reaches the constructor through copy()
+        ok, val = ctx.attempt(lambda: ([x.copy() if k % 2 else x for k, x in enumerate(t_states)],
+                                       [x.copy() if k % 2 == 0 else x for k, x in enumerate(t_povms)]))
+        if ok:
+            t_states, t_povms = val
+        t_opts = draw_opts(hrng, 0.5)
+        # custom schedules: the list as the first tomography's experiment returns it
+        t_arg = case.arg if isinstance(case.arg, str) else tomo.experiment.schedules
+        mt = sibling("twin-tomography" + ("+ctor-options" if t_opts else ""), t_states, t_povms, t_state_vecs, t_povm_vecs,
+                     t_arg, list(R.sched), t_opts)
+        if mt is not None:
+            sibs.append(mt)
+            ctx.count("hist:twin-tomography")
+    # the very same tester objects (and list objects) with another schedule list
+    lst = list(R.sched)[::-1]
+    if len(lst) > 2 and hrng.random() < 0.7:
+        del lst[int(hrng.integers(0, len(lst)))]
+    mt = sibling("re-used-testers", case.states, case.povms, case.state_vecs, case.povm_vecs, sched_arg(kind, lst), lst, {},
+                 rank=not big)
+    if mt is not None:
+        sibs.append(mt)
+        ctx.count("hist:re-used-testers")
+    if sibs:
+        shared = [objs[0], cand[-1]]
+        for k, o in enumerate(shared):
+            for pos, mt in enumerate([meta] + sibs + [meta]):
+                # circuit passes: every sibling once and the first tomography once after them; big configurations: first sibling only
+                ask_dists(mt, o, seq=k == 0 and pos > 0 and (mt is sibs[0] or not big))
+        for pos, mt in enumerate(sibs + [meta] + sibs[::-1]):
+            ask_model(mt, full=mt is not meta, rank=(pos < len(sibs) and mt.ask_rank) or (mt is meta and not big))
+
+    # ---- (b) the tomography and two candidates after a pickle round trip
+    ok, val = ctx.attempt(lambda: pickle.loads(pickle.dumps((tomo, [objs[0], cand[-1]]))))
+    if ok:
+        clone, (o1, o2) = val
+        mc = copy.copy(meta)
+        mc.tomo, mc.step = clone, "via-pickle"
+        mc.desc = dict(meta.desc, history_step="via-pickle")
+        mon.reg[id(clone)] = mc
+        ask_model(mc, full=True, rank=not big)
+        ask_dists(mc, o1, seq=True)
+        ask_dists(mc, o2, k=3)
+        ask_dists(meta, objs[0], step="second-call")
+        ctx.count("hist:via-pickle")
+    else:
+        ctx.count("hist:pickle-round-trip-failed")  # not this property's business
+
+    # ---- (b) candidates that are not constructor-made
+    o = objs[min(1, len(objs) - 1)]
+    ok, var = ctx.attempt(mon.var_of, meta, o)
+    makers = [("candidate-via-copy", lambda: o.copy())]
+    if ok:
+        makers += [("candidate-via-generate_from_var", lambda: o.generate_from_var(np.array(var))),
+                   ("candidate-via-convert_var_to_qoperation", lambda: tomo.convert_var_to_qoperation(np.array(var)))]
+    for step, mk in makers:
+        ok, dobj = ctx.attempt(mk)
+        if not ok:
+            ctx.count("hist:candidate-maker-raised")  # C03 territory
+            continue
+        circuit_too = step == "candidate-via-copy" or (not big and step == "candidate-via-convert_var_to_qoperation")
+        ask_dists(meta, dobj, seq=circuit_too, step=step)
+        for mt in sibs[:1]:
+            ask_dists(mt, dobj, step=step)
+        ctx.count("hist:candidate-provenance")
+
+    # ---- (a) ONE experiment copy re-used for several objects through the public setters
+    exp = tomo.experiment.copy()
+    seq = [objs[-1], objs[0], objs[-1]]
+    alive = True
+    for k, o in enumerate(seq):
+        ok, e = ctx.attempt(setattr, exp, case.attr, [o])
+        if not ok:
+            ctx.count("hist:experiment-setter-raised")  # setters are C20's business
+            alive = False
+            break
+        with ph.step("experiment:after-setter" if k else "experiment:via-setter"):
+            judge_experiment(ctx, hs, mon, meta, exp, o, some_js(meta) if k else range(min(nS, 12)))
+    if alive and nS > 1:
+        k = int(hrng.integers(1, nS))
+        old = list(exp.schedules)
+        ok, e = ctx.attempt(setattr, exp, "schedules", old[k:] + old[:k])
+        if ok:
+            with ph.step("experiment:after-schedules-setter"):
+                judge_experiment(ctx, hs, mon, meta, exp, seq[-1], sorted(set([0, nS - 1, nS - k, max(0, nS - k - 1)])),
+                                 index_of=lambda j: (j + k) % nS)
+        else:
+            ctx.count("hist:experiment-setter-raised")
+    if alive:
+        ctx.count("hist:experiment-setters")
+
+    # ---- candidates created, asked and dropped one after the other (same id() again), tomographies alternating
+    pool = [meta] + sibs
+    for t in range(4):
+        raw = rand_candidate(kind, bc, m, hrng, "interior")
+        ok, o = ctx.attempt(make_obj, Q, kind, c_sys, raw, flag)
+        if not ok:
+            continue
+        mt = pool[t % len(pool)]
+        with ph.step(stepname(mt, "transient-candidate")):
+            ctx.attempt(mt.tomo.calc_prob_dists, o)
+        del o
+    ctx.count("hist:transient-candidate")
+
+
 # ------------------------------------------------------------------ driver
 
 PHYS_CAP = {"quick": {"S1": 10**6, "S3": 10**6, "S2": 70}, "thorough": {"S1": 10**6, "S3": 10**6, "S2": 10**6}}
@@ -824,13 +1224,17 @@ def run_shard(ctx):
     from quara.objects.operators import compose_qoperations
 
     hs, mon, classes = install(ctx)
+    ph = PhaseKeys(ctx)
     cls = classes[kind]
     csys_cache = {}
     tested_ref = False
     try:
         for i in ctx.cases(p["n"], start=p.get("part", 0) * p["n"]):
             rng = ctx.rng()
+            hrng = ctx.rng(1)  # history steps and constructor options: own stream, the ordinary workload is unchanged
+            ph.new_case()
             cfg = pick_config(kind, shape, rng, i)
+            opts = {} if i == 0 else draw_opts(hrng, 1.0 / 3.0)
             if cfg["basis"] not in csys_cache:
                 c = gen.make_csys(dims, kind=cfg["basis"])
                 csys_cache[cfg["basis"]] = (c, BasisCtx(gen.basis_of(c)))
@@ -858,7 +1262,7 @@ def run_shard(ctx):
                 ctx.violation("tester-ctor:" + ctx.exc_key(val), {"config": cfg})
                 continue
             states, povms = val
-            kw = dict(on_para_eq_constraint=flag, schedules=arg)
+            kw = dict(on_para_eq_constraint=flag, schedules=arg, **opts)
             if kind == "qst":
                 ctor = lambda: cls(povms, **kw)  # noqa: E731
             elif kind == "povmt":
@@ -870,7 +1274,10 @@ def run_shard(ctx):
             ok, tomo = ctx.attempt(ctor)
             desc = {"class": CLS[kind], "shape": shape, "flag": flag, "basis": cfg["basis"], "povm_design": cfg["povm_design"],
                     "state_design": cfg["state_design"], "schedule_mode": cfg["sched_mode"], "m_unknown": m,
-                    "povm_outcome_counts": [len(v) for v in povm_vecs][:16], "n_states": len(state_vecs), "n_schedules": len(sched)}
+                    "povm_outcome_counts": [len(v) for v in povm_vecs][:16], "n_states": len(state_vecs), "n_schedules": len(sched),
+                    "ctor_options": sorted(opts)}
+            if opts:
+                ctx.count("cfg:non-default-ctor-options")
             if not ok:
                 ctx.violation(f"ctor:{CLS[kind]}:" + ctx.exc_key(tomo), {"config": desc})
                 continue
@@ -901,6 +1308,7 @@ def run_shard(ctx):
             base = None
             roundtrip_bad = 0.0
             unit_raws = []
+            all_raws = []  # raw arrays of var=0 and of every unit vector (re-used for the sibling tomographies of the history steps)
             build_ok = True
             with hs.paused():
                 for k in range(-1, nv):
@@ -919,6 +1327,7 @@ def run_shard(ctx):
                     roundtrip_bad = max(roundtrip_bad, maxabs(back, v))
                     raw = raw_of(o)
                     pb = R.born_all(raw)
+                    all_raws.append(raw)
                     if k < 4:
                         unit_raws.append(raw)
                     if k < 0:
@@ -945,27 +1354,7 @@ def run_shard(ctx):
             ctx.attempt(tomo.is_fullrank_matA)
 
             # informational completeness from dense operators vs column rank of quara's A
-            rows, full = R.ic_rows()
-            r_ic, dec_ic = rank_zones(rows)
-            if rows.shape[0] < full:
-                ic, dec_ic = False, True
-            else:
-                ic = r_ic == full
-            r_A, dec_A = meta.rank_A_q
-            if meta.A_q.shape[0] < nv:
-                fullcol, dec_A = False, True
-            else:
-                fullcol = r_A == nv
-            if dec_ic and dec_A and meta.A_q.shape[1] == nv:
-                ctx.truth("matA:full-column-rank-iff-IC", ic == fullcol,
-                          key=f"matA:{mon.tag(meta)}:" + ("IC-but-rank-deficient" if ic else "not-IC-but-full-column-rank"),
-                          info={"config": desc, "rank_A": r_A, "num_variables": nv, "rank_functionals": r_ic, "full": full})
-                ctx.count("cfg:IC" if ic else "cfg:non-IC")
-                intended = cfg["povm_design"] in ("ic", "pauli") and cfg["state_design"] in ("ic", "pauli") and cfg["sched_mode"] in ("all", "explicit", "perm", "rep")
-                if intended and not ic:
-                    ctx.note(f"generator: design meant to be IC is not ({desc})")
-            else:
-                ctx.skip("matA:full-column-rank-iff-IC")
+            judge_ic(ctx, mon, meta, cfg)
 
             # ---------------- circuit on an affine basis of the physical affine hull
             hull_dim = R.nvar(True)
@@ -994,27 +1383,9 @@ def run_shard(ctx):
             # the same through a copy of the experiment filled by the driver (not by generate_prob_dists_sequence)
             attr = {"qst": "states", "povmt": "povms", "qpt": "gates", "qmpt": "mprocesses"}[kind]
             for o in objs[:3]:
-                with hs.paused():
-                    model = mon.model(meta, o)
-                    born = R.born_all(raw_of(o))
                 exp = tomo.experiment.copy()
                 getattr(exp, attr)[0] = o
-                for j in range(len(sched)):
-                    ok, ps = ctx.attempt(exp.calc_prob_dist, j)
-                    if not ok:
-                        ctx.violation(f"experiment.calc_prob_dist:{CLS[kind]}:" + ctx.exc_key(ps), {"config": desc})
-                        break
-                    want = dist_expected(R.slice(born, j))
-                    if want is None:
-                        ctx.skip("experiment.calc_prob_dist:vs-model")
-                        continue
-                    got = np.asarray(ps, dtype=float).reshape(-1)
-                    mj = R.slice(model, j)
-                    err = max(maxabs(got, mj), maxabs(got, want))
-                    ctx.num("experiment.calc_prob_dist:vs-model", err, TOL_PASS, TOL_FAIL,
-                            key=f"forward-model:{mon.tag(meta)}:model-differs-from-circuit" if maxabs(got, mj) >= maxabs(got, want)
-                            else f"experiment.calc_prob_dist:{CLS[kind]}:circuit-differs-from-born",
-                            info={"schedule": j, "config": desc})
+                judge_experiment(ctx, hs, mon, meta, exp, o, range(len(sched)))
             # QMPT: order of (unknown outcome, tester outcome) against the shape the circuit reports
             if kind == "qmpt" and objs:
                 o = objs[0]
@@ -1043,8 +1414,12 @@ def run_shard(ctx):
                         continue
                     e_c = maxabs(ps.reshape(shp), want)
                     with hs.paused():
-                        mj = R.slice(mon.model(meta, o), j)
+                        model = mon.model(meta, o)
                         no = tomo.num_outcomes(j)
+                    if model is None:
+                        ctx.skip("qmpt:circuit-outcome-order")
+                        continue
+                    mj = R.slice(model, j)
                     e_m = maxabs(mj.reshape(shp), want)
                     ctx.num("qmpt:circuit-outcome-order", e_c, TOL_PASS, TOL_FAIL, key="qmpt:circuit:outcome-order-contradicts-reported-shape",
                             info={"shape": list(shp), "m": m, "m_povm": mp})
@@ -1068,7 +1443,7 @@ def run_shard(ctx):
                     with hs.paused():
                         model = mon.model(meta, o)
                         ok, seq = ctx.attempt(tomo.generate_prob_dists_sequence, o)
-                    if not ok:
+                    if not ok or model is None:
                         ctx.skip("circuit:off-constraint:normalised")
                         continue
                     for j in range(len(sched)):
@@ -1090,15 +1465,32 @@ def run_shard(ctx):
                 ctx.attempt(tomo.calc_prob_dists, o)
                 for j in sorted(set([0, len(sched) - 1, int(rng.integers(0, len(sched)))])):
                     ctx.attempt(tomo.calc_prob_dist, o, j)
+
+            # ---------------- history / combination steps on the same objects
+            case = Meta()
+            case.kind, case.flag, case.cls, case.c_sys, case.bc, case.m, case.cfg = kind, flag, cls, c_sys, bc, m, cfg
+            case.arg, case.sched, case.states, case.povms = arg, sched, states, povms
+            case.objs, case.cand, case.attr, case.state_vecs, case.povm_vecs = objs, cand, attr, state_vecs, povm_vecs
+            case.all_raws = all_raws if meta.A_ref is not None else None
+            try:
+                run_history(ctx, hs, mon, ph, Q, meta, case, hrng)
+            finally:
+                ph.cur = None
+                for key in [k for k, mt in mon.reg.items() if mt is not meta]:
+                    del mon.reg[key]
             del mon.reg[id(tomo)]
     finally:
         hs.uninstall()
+        ph.restore()
     ctx.extra["hook_counts"] = hs.counts
     hs.require([f"{CLS[kind]}.{n}" for n in HOOKED])
 
 
 def finalize(merged, ctx):
     c = merged["counters"]
-    for need in ("cfg:mixed-counts", "cfg:uniform-counts", "cfg:IC", "cfg:non-IC", "circuit_affine_basis_complete", "ref_self_test"):
+    for need in ("cfg:mixed-counts", "cfg:uniform-counts", "cfg:IC", "cfg:non-IC", "circuit_affine_basis_complete", "ref_self_test",
+                 "cfg:non-default-ctor-options", "hist:second-call", "hist:after-consumer", "hist:consumer:LinearEstimator:returned",
+                 "hist:twin-tomography", "hist:re-used-testers", "hist:via-pickle", "hist:candidate-provenance",
+                 "hist:experiment-setters", "hist:transient-candidate"):
         if c.get(need, 0) == 0:
             ctx.mark_inconclusive(f"workload never produced: {need}")
